@@ -658,6 +658,21 @@ func runC09(c *Cfg) {
 			}
 		}
 	}
+	// batches far beyond 64 items in both modes, the first failure early and near the end
+	for _, n := range []int{128, 300} {
+		for _, cc := range []int{0, 1, 3, 8} {
+			for _, f := range []int{5, n - 3} {
+				for _, stop := range []bool{true, false} {
+					it := make([]ItemScript, n)
+					for j := range it {
+						it[j].K = 1
+					}
+					it[f].K = 2
+					ca = append(ca, &BatchCase{Family: "stop-grid-large", N: n, C: cc, Stop: stop, SetMode: true, Budget: 1, Items: it, Shape: "results", Build: "builder", ExecStyle: []string{"result", "any"}[(cc+f)%2], Gated: true, Policy: []string{"holdfail", "random"}[cc%2], PSeed: uint64(n + cc)})
+				}
+			}
+		}
+	}
 	gatedLoop(c, len(ca), func(i int) *BatchCase { return ca[i] }, func(i int, cs *BatchCase, o *BatchObs) {
 		r.Count("runs."+cs.Family, 1)
 		r.Nontrivial(fmt.Sprintf("%s %d %d %v %s", cs.Family, cs.N, cs.C, cs.Stop, completionOrder(o)))
